@@ -168,3 +168,79 @@ func zzResumeFreshIDs() {
 	zzsymAssert(zzsymAnd(zzsymEqBytes(client.suite.cr, clientRandom[:]), zzsymEqBytes(server.suite.cr, clientRandom[:])), "keys_from_fresh_client_random")
 	zzsymAssert(zzsymAnd(zzsymEqBytes(client.suite.sr, serverRandom[:]), zzsymEqBytes(server.suite.sr, serverRandom[:])), "keys_from_fresh_server_random")
 }
+
+// Loss and retransmission of the abbreviated flights, both endpoints holding the same stored secret (2
+// arbitrary bytes): every subset of {ServerHello, server Finished} is lost on first transmission, then the
+// retransmission delivers the missing messages; the client's Finished is lost or not, then retransmitted.
+// Proved: while a message is missing the receiver neither advances nor alerts nor completes; the client
+// initialises keys only once it has the ServerHello; after the retransmission the handshake completes on both
+// sides with the same (stored secret, client random, server random) as without loss, keys initialised exactly
+// once per side (no re-keying by the repeated parse).
+//
+//symgo:entry covers=no_loss,lost_hello,lost_finished,lost_both,lost_client_finished
+func zzResumeLossRecovery() {
+	var log [][]byte
+	rand.Reader = zzRandLog{&log}
+	client, server := zzNewPeer(true), zzNewPeer(false)
+	client.conn = zzConn{key: zzClientKey}
+	cstore, sstore := &zzStore{}, &zzStore{}
+	cstore.attach(client.cfg)
+	sstore.attach(server.cfg)
+	id := zzsymBytes("session_id", 1)
+	secret := zzsymBytes("stored_secret", 2)
+	cstore.put(zzClientKey, id, secret)
+	sstore.put(id, id, secret)
+
+	if _, a, err := zzSend(server, client, Flight0, nil); a != nil || err != nil {
+		zzsymFail("server_start_failed")
+	}
+	server.state.LocalKeypair = &elliptic.Keypair{PublicKey: []byte{9}}
+	if _, a, err := zzSend(client, server, Flight1, nil); a != nil || err != nil {
+		zzsymFail("client_hello_failed")
+	}
+	next, a, err := zzRecv(server, Flight0)
+	zzsymAssert(a == nil && err == nil && next == Flight4b, "server_resumes")
+
+	loseSH, loseFin := zzsymChoice("lose_server_hello", 2) == 1, zzsymChoice("lose_server_finished", 2) == 1
+	if _, a, err = zzSend(server, client, Flight4b, []bool{loseSH, loseFin}); a != nil || err != nil {
+		zzsymFail("abbreviated_flight_failed")
+	}
+	if loseSH || loseFin {
+		cnext, ca, cerr := zzRecv(client, Flight1)
+		zzsymAssert(cnext == 0 && ca == nil && cerr == nil, "client_waits_for_lost_message")
+		zzsymAssert(loseSH == (client.suite.inits == 0), "client_keys_only_after_server_hello")
+		// the server meanwhile sees nothing new
+		snext, sa, serr := zzRecv(server, Flight4b)
+		zzsymAssert(snext == 0 && sa == nil && serr == nil, "server_waits")
+		zzRetransmit(server, client)
+	}
+	cnext, ca, cerr := zzRecv(client, Flight1)
+	zzsymAssert(ca == nil && cerr == nil && cnext == Flight5b, "client_resumes_after_retransmission")
+
+	loseCFin := zzsymChoice("lose_client_finished", 2) == 1
+	if _, a, err = zzSend(client, server, Flight5b, []bool{loseCFin}); a != nil || err != nil {
+		zzsymFail("client_finished_failed")
+	}
+	if loseCFin {
+		snext, sa, serr := zzRecv(server, Flight4b)
+		zzsymAssert(snext == 0 && sa == nil && serr == nil, "server_waits_for_lost_finished")
+		zzRetransmit(client, server)
+		zzsymCover("lost_client_finished")
+	}
+	snext, sa, serr := zzRecv(server, Flight4b)
+	zzsymAssert(sa == nil && serr == nil && snext == Flight4b, "server_completes_after_retransmission")
+
+	zzsymAssert(client.suite.inits == 1 && server.suite.inits == 1, "keys_initialised_once_per_side")
+	zzsymAssert(zzsymAnd(zzsymEqBytes(client.suite.ms, secret), zzsymEqBytes(server.suite.ms, secret)), "keys_from_stored_secret")
+	zzsymAssert(zzsymAnd(zzsymEqBytes(client.suite.cr, server.suite.cr), zzsymEqBytes(client.suite.sr, server.suite.sr)), "both_sides_same_randoms")
+	switch {
+	case loseSH && loseFin:
+		zzsymCover("lost_both")
+	case loseSH:
+		zzsymCover("lost_hello")
+	case loseFin:
+		zzsymCover("lost_finished")
+	default:
+		zzsymCover("no_loss")
+	}
+}
